@@ -54,6 +54,10 @@ def run(ctx: Ctx):
         leaves = assert_leaves(sl)
         if not leaves:
             raise AnalysisError(f"{cname}.check_solution_validity: no assert found")
+        if cname == "MTVRPEnv":
+            # C06.h: the checker's clock advances by travel TIME (distance / speed); route lengths are distances
+            from .. import units
+            units.obligations(ctx, "C06.h", f"{cname}.checker", sl.it, sl.fr, sl.where, 12)
         lits = T.CHECK[cname]
         m = match_all(leaves, lits, allow_reduced=True)
         for lit in lits:
